@@ -49,6 +49,9 @@ class Tok:
     def max_len(self):
         return self.length if isinstance(self.length, int) else 10 ** 6
 
+    def __repr__(self):
+        return 'Tok(%s)' % self.name
+
 
 class NumText:
     """decimal text 'ddd.ff' (nd digits after the point) of a non-negative
@@ -61,9 +64,6 @@ class NumText:
 
     def __repr__(self):
         return 'NumText(%r)' % (self.d,)
-
-    def __repr__(self):
-        return 'Tok(%s)' % self.name
 
 
 class SciText:
@@ -212,6 +212,13 @@ def equals(a, b, ops):
                 pa.pop(0)
                 pb.pop(0)
                 continue
+            num, oth = (x, y) if isinstance(x, (NumText, SciText)) else (y, x)
+            allowed = '0123456789.' + ('E+-' if isinstance(num, SciText)
+                                       else '')
+            if isinstance(oth, str) and oth and oth[0] not in allowed:
+                return False
+            if isinstance(oth, Tok) and oth.first_nondigit:
+                return False
             raise Unsupported('comparison of formatted numbers')
         t, o = (x, y) if isinstance(x, Tok) else (y, x)
         if isinstance(o, str) and o and o[0] in t.excl:
@@ -226,7 +233,7 @@ def equals(a, b, ops):
                 return False
             if isinstance(p, IntText) and p.width > 0:
                 return False
-            if isinstance(p, Tok):
+            if isinstance(p, (Tok, NumText, SciText)):
                 return False
     return ops.all_(conds)
 
@@ -312,28 +319,128 @@ def find(s, needle, ops, reverse=False):
     return max(hits) if reverse else min(hits)
 
 
+DIGITS = frozenset('0123456789')
+ALL_CHARS = frozenset(chr(c) for c in range(32, 127)) | frozenset('\n\t\r')
+
+
+def _alphabet(p):
+    """characters an unknown piece may contain, (min, max) length"""
+    if isinstance(p, IntText):
+        return DIGITS, p.width, p.width
+    if isinstance(p, NumText):
+        l = p.length if isinstance(p.length, int) else None
+        return DIGITS | {'.'}, (l or 3), (l or 40)
+    if isinstance(p, SciText):
+        return DIGITS | frozenset('.E+-'), p.width, p.width
+    if isinstance(p, Tok):
+        a = ALL_CHARS - p.excl
+        l = p.length if isinstance(p.length, int) else None
+        return a, (l or 1), (l or 10 ** 6)
+    raise Unsupported('piece %r' % (p,))
+
+
+def _may_touch_unknown(s, needle, skip=()):
+    """could an occurrence of `needle` overlap (by at least one character) an
+    unknown piece that is not in `skip`?  Conservative: True unless excluded
+    by the pieces' alphabets and the neighbouring literal text."""
+    cells = []          # ('lit', ch) | ('run', alphabet, min, max, piece)
+    for p in s.pieces:
+        if isinstance(p, str):
+            cells.extend(('lit', ch) for ch in p)
+        else:
+            a, lo, hi = _alphabet(p)
+            cells.append(('run', a, lo, hi, p))
+    n = len(needle)
+
+    def match(ci, off_in_run, k, touched):
+        """needle[k:] matches starting at cell ci (off_in_run chars of a run
+        already consumed)"""
+        if k == n:
+            return touched
+        if ci >= len(cells):
+            return False
+        c = cells[ci]
+        if c[0] == 'lit':
+            if c[1] != needle[k]:
+                return False
+            return match(ci + 1, 0, k + 1, touched)
+        _, a, lo, hi, p = c
+        res = False
+        # consume one more char of this run
+        if needle[k] in a and off_in_run < hi:
+            res = match(ci, off_in_run + 1, k + 1, touched or p not in skip)
+        # or leave the run (only if its minimum length may be satisfied: the
+        # match may have started in the middle of the run, so any offset ok)
+        if not res and off_in_run > 0:
+            res = match(ci + 1, 0, k, touched)
+        return res
+    for ci, c in enumerate(cells):
+        if c[0] == 'lit':
+            if match(ci, 0, 0, False):
+                return True
+        else:
+            if match(ci, 0, 0, False):
+                return True
+    return False
+
+
 def contains(s, needle, ops):
     s = lift(s)
     if not isinstance(needle, str):
         raise Unsupported('`in` with symbolic needle')
-    if not _needle_ok(s, needle):
-        raise Unsupported('`in`: %r could match inside an unknown piece'
-                          % needle)
+    if needle == '':
+        return True
     if any(isinstance(p, str) and needle in p for p in s.pieces):
         return True
-    # a needle without separator characters may lie inside one unknown word
-    # (never across a word boundary when the neighbours are separators)
+    flagged = [p for p in s.pieces if isinstance(p, Tok) and
+               p.flags is not None]
+    if _may_touch_unknown(s, needle, skip=flagged):
+        raise Unsupported('`in`: %r could match inside an unknown piece'
+                          % needle)
+    # only the flagged unknown words can contain the needle, entirely inside
+    # one word unless it may straddle a word boundary
     conds = []
-    for k, p in enumerate(s.pieces):
-        if isinstance(p, Tok) and p.flags is not None and \
-                not (set(needle) & p.excl) and len(needle) <= p.max_len():
-            for q in (s.pieces[k - 1] if k else None,
-                      s.pieces[k + 1] if k + 1 < len(s.pieces) else None):
-                if q is not None and not (isinstance(q, str) and
-                                          (q[0] in p.excl or q[-1] in p.excl)):
-                    raise Unsupported('needle may straddle a word boundary')
-            conds.append(p.flags(needle))
+    for p in flagged:
+        a, lo, hi = _alphabet(p)
+        if not (set(needle) <= a) or len(needle) > hi:
+            continue
+        conds.append(p.flags(needle))
+    # straddling a flagged word and its neighbours
+    for p in flagged:
+        others = [q for q in s.pieces if q is not p and not isinstance(q, str)]
+        if _may_touch_unknown(SStr([q if (q is p or isinstance(q, str)) else
+                                    ' ' * 0 or q for q in s.pieces]), needle,
+                              skip=others) and \
+                _straddles(s, p, needle):
+            raise Unsupported('needle may straddle a word boundary')
     return ops.any_(conds) if conds else False
+
+
+def _straddles(s, p, needle):
+    """may needle overlap p AND a neighbouring piece at the same time?"""
+    k = s.pieces.index(p)
+    a, lo, hi = _alphabet(p)
+    for side, q in (('L', s.pieces[k - 1] if k else None),
+                    ('R', s.pieces[k + 1] if k + 1 < len(s.pieces) else None)):
+        if q is None:
+            continue
+        if isinstance(q, str):
+            edge = q[-1] if side == 'L' else q[0]
+            if edge in needle:
+                # literal edge char occurs in the needle: a straddling match
+                # would need the adjacent needle char inside p
+                idxs = [i for i, ch in enumerate(needle) if ch == edge]
+                for i in idxs:
+                    j = i + 1 if side == 'L' else i - 1
+                    if 0 <= j < len(needle) and needle[j] in a:
+                        return True
+        else:
+            b, _, _ = _alphabet(q)
+            if any(needle[i] in b and needle[i + 1] in a or
+                   needle[i] in a and needle[i + 1] in b
+                   for i in range(len(needle) - 1)):
+                return True
+    return False
 
 
 def _slice_prefix(s, start, stop):
@@ -404,6 +511,10 @@ def char_at(s, i, ops):
         if off <= i < off + s.plen(p):
             if isinstance(p, str):
                 return p[i - off]
+            if isinstance(p, Tok):
+                # one unknown character of an unknown word
+                return SStr([Tok('%s[%d]' % (p.name, i - off), 1, p.excl,
+                                 p.first_nondigit and i == off)])
             raise Unsupported('character inside %r' % (p,))
     raise_('IndexError', 'string index out of range')
 
@@ -412,6 +523,8 @@ def replace(s, old, new, ops):
     s = lift(s)
     if not isinstance(old, str) or not isinstance(new, str):
         raise Unsupported('replace with symbolic arguments')
+    if old == '' and new == '':
+        return simplify(s)
     if not _needle_ok(s, old):
         raise Unsupported('replace(%r) could match inside an unknown piece'
                           % old)
@@ -419,9 +532,45 @@ def replace(s, old, new, ops):
                           for p in s.pieces]))
 
 
+WS = ' \t\n\r\x0b\x0c'
+
+
+def split_ws(s, ops):
+    """str.split() (runs of whitespace); unknown pieces must be
+    whitespace-free"""
+    s = lift(s)
+    for p in s.pieces:
+        if isinstance(p, Tok) and not (set(WS) <= p.excl):
+            raise Unsupported('split(): unknown word may contain whitespace')
+    fields = []
+    cur = []
+    for p in s.pieces:
+        if isinstance(p, str):
+            buf = ''
+            for ch in p:
+                if ch in WS:
+                    if buf:
+                        cur.append(buf)
+                        buf = ''
+                    if cur:
+                        fields.append(cur)
+                        cur = []
+                else:
+                    buf += ch
+            if buf:
+                cur.append(buf)
+        else:
+            cur.append(p)
+    if cur:
+        fields.append(cur)
+    return [simplify(SStr(f)) for f in fields]
+
+
 def split(s, sep, ops):
     s = lift(s)
-    if sep is None or not isinstance(sep, str):
+    if sep is None:
+        return split_ws(s, ops)
+    if not isinstance(sep, str):
         raise Unsupported('split() without a literal separator')
     if not _needle_ok(s, sep):
         raise Unsupported('split(%r) could match inside an unknown piece'
@@ -480,6 +629,11 @@ def to_float(s, ops):
             isinstance(ps[1], (NumText, SciText)):
         import ast
         return ops.unary(ast.USub(), ps[1].d)
+    if len(ps) > 1 and any(isinstance(p, Tok) and
+                           set('0123456789') <= p.excl for p in ps) and \
+            any(isinstance(p, (IntText, NumText, SciText)) for p in ps):
+        # digits glued to a digit-free word ('1He', 'Pt12'): never a float
+        raise_('ValueError', 'could not convert string to float')
     if len(ps) > 1 and any(isinstance(p, (NumText, SciText)) for p in ps):
         # several numbers glued together (e.g. by a minus sign) or a number
         # glued to other text: not a float literal
@@ -489,6 +643,14 @@ def to_float(s, ops):
         if isinstance(n, Sym):
             return mk(z3.ToReal(n.t))
         return Fraction(n)
+    if len(ps) == 1 and isinstance(ps[0], Tok) and \
+            getattr(ops, 'interp', None) is not None:
+        # whether an unknown word is a float literal ('nan', 'inf', '1e5')
+        # is unknown: both outcomes are explored
+        ctx = ops.interp.ctx
+        if ctx.branch(Sym(ctx.fresh('isfloat', 'bool'))):
+            return Sym(ctx.fresh('floatval', 'real'))
+        raise_('ValueError', 'could not convert string to float')
     if s.is_literal():
         from .values import to_frac
         try:
@@ -557,9 +719,12 @@ def float_text(v, spec, interp):
     L = ctx.fresh('fmtlen', 'int')
     half = z3.RealVal('1/%d' % (2 * 10 ** nd))
     # correctly rounded decimal with nd fractional digits
+    q = ctx.fresh('fmtq', 'int')
     ctx.atoms.facts.append(d >= 0)
     ctx.atoms.facts.append(d - t <= half)
     ctx.atoms.facts.append(t - d <= half)
+    # the printed value is a multiple of 10^-nd
+    ctx.atoms.facts.append(d * 10 ** nd == z3.ToReal(q))
     ctx.atoms.facts.append(L >= nd + 2)
     if getattr(interp, 'concrete_number_lengths', False):
         # number of integer digits of the printed value: case split
@@ -582,7 +747,10 @@ def sci_text(v, interp):
     t = z3real(v)
     m = ctx.fresh('sci', 'real')
     eps = z3.RealVal('5/1000000000')
-    neg = ctx.branch(mk(t < 0))
+    if ctx.prove(t >= 0):
+        neg = False
+    else:
+        neg = ctx.branch(mk(t < 0))
     a = -t if neg else t
     ctx.atoms.facts.append(m >= 0)
     ctx.atoms.facts.append(m - a <= a * eps)
